@@ -269,7 +269,9 @@ func (this *badgerWAL) CreateSnapshot(idx uint64, confState *raftpb.ConfState, d
 }
 
 func (this *badgerWAL) DeleteGroup() error {
-	return this.reset(nil)
+	// Leave the store as a fresh one (with the dummy entry at term 0), so that
+	// this object can back the group again if the replica is re-added
+	return this.reset(make([]raftpb.Entry, 1))
 }
 
 func (this *badgerWAL) entryPrefix() []byte {
